@@ -298,7 +298,7 @@ theorem respectsB_sound {tbl : List Access} {tr : List Ev} (h : respectsB tbl tr
   have h2 := this.2 hh hmem
   cases hr : runL LState.init (tr.take i) with
   | none => rw [hr] at h2; cases h2
-  | some s => rw [hr] at h2; exact ⟨s, hr, holdsB_sound h2⟩
+  | some s => rw [hr] at h2; exact Or.inl ⟨s, hr, holdsB_sound h2⟩
 
 /-! ### the grouped table -/
 
